@@ -12,17 +12,25 @@ B: `template` missing in a current-node test of the table modes, C: end tags in 
 case, D: `<input>` with a `select` context element) have been fixed in the code and in the model; their witnesses
 are kept at the end of the file as regression examples, now showing agreement.
 
-One thin layer remains between the model and the transcription: in "in cell" the standard *asserts* that a `td`/`th`
-element is in table scope (start tags `caption`, `col`, …), and `Spec.TreeModes.inCell` stops with the error
-`cellAssertMsg` if it is not; html5ever handles that case defensively (parse error, ignore the token).  The
-simulation is proved against `parseDocumentDev` (`H5V.Lemmas.HtmlTBModesDev`), which is the specification with that
-single asserted-impossible case defined as html5ever defines it (`cellAssertFails`); `parseDocumentDev` and
-`parseDocument` agree whenever `parseDocument` succeeds (`parseDocumentDev_of_parseDocument`), and where
-`parseDocumentDev` succeeds `parseDocument` gives the same result or stops with `cellAssertMsg`
-(`parseDocument_of_parseDocumentDev`).  So the headlines say: *the unmodified specification's run yields the state
-`σ` the model agrees with, or it stops at the violated Assert* (which the standard claims cannot happen; we did
-not prove that claim).  `C02_model_eq_spec_modes_completed` / `…_fragment_completed` are the statements against
-`parseDocumentDev` / `parseFragmentDev`.
+**Strict headlines.**  `C02_model_eq_spec_modes_strict` / `C02_model_eq_spec_modes_fragment_strict` say: the model's
+run IS the run of the unmodified specification (`parseDocument … = .ok σ` with `σ` agreeing with the model).  Two
+technical provisos of earlier versions are gone:
+
+* the standard's *Assert* in "in cell" ("the stack of open elements has a `td` or `th` element in table scope",
+  where `Spec.TreeModes.inCell` stops with `cellAssertMsg` if it fails, and html5ever reports a parse error and
+  ignores the token) is PROVED never to fail: `H5V.Lemmas.ModesInv.Good` (files `HtmlTBModesInv*.lean`) is an
+  invariant of the specification's own run — every rule function of `Spec.TreeModes` keeps it
+  (`H5V.Lemmas.ModesInv.keeps_byMode`, `post_foreign`) —, and it contains "insertion mode "in cell" ⇒ a `td`/`th` is
+  in table scope".  The model supplies, for tag tokens, the facts the specification's states cannot know by
+  themselves (an element's type is a function of its node; node identities handed out later are fresh; in "text" the
+  current node is an HTML element): `HtmlTBModesInvModel.lean`.  `C02_cell_assert_never_fails`.
+* the protocol hypothesis "a DOCTYPE token in "in table text" finds an HTML element as adjusted current node" is
+  gone: the invariant gives "in "in table text" the current node is a `table`, `tbody`, `template`, `tfoot`, `thead`,
+  `tr` element" (`acnHtml_of_xinv`).
+
+The simulation itself is still proved against `parseDocumentDev` (`H5V.Lemmas.HtmlTBModesDev`, the specification
+with the asserted-impossible case defined as html5ever defines it); `DocAgrees` states both runs, the older forms
+`C02_model_eq_spec_modes` (`DocAgreesStd`) and `…_completed` are kept.
 -/
 namespace H5V.Props.C02
 open H5V.Model.HtmlTB
@@ -123,7 +131,9 @@ def DocAgrees (opts : Opts) (toks : List (TokToken × Nat)) (res : List SinkResu
   ∃ ids, ∀ rest, ∃ σ : SState,
     -- with the nodes `ids` the sink handed out (and any further supply `rest`), the specification's run over the
     -- same tokens succeeds for every sufficient amount of reprocessing fuel, …
-    (∃ F, ∀ fuel, F ≤ fuel → parseDocumentDev (docCfg opts) fuel (ids ++ rest) (specToks toks) = .ok σ) ∧
+    (∃ F, ∀ fuel, F ≤ fuel → parseDocumentDev (docCfg opts) fuel (ids ++ rest) (specToks toks) = .ok σ ∧
+      -- (the UNMODIFIED specification: the Assert of "in cell" never fails)
+      Spec.TreeModes.parseDocument (docCfg opts) fuel (ids ++ rest) (specToks toks) = .ok σ) ∧
     σ.p.supply = rest ∧
     -- … makes the same DOM operations in the same order (text insertions compared character by character) …
     (∀ tc, TcOk s'.dom tc → flatCalls (edits2 calls) = flatCalls (σ.fullLog.map (opCall tc))) ∧
@@ -137,18 +147,28 @@ theorem docAgrees_of_sims (hmode : ∀ m, ModeSim m) (hchar : ∀ m, ModeCharSim
     (toks : List (TokToken × Nat)) (hresp : Respects2 (docStart opts) toks) :
     PC (parseRest toks) (docStart opts) (DocAgrees opts toks) := by
   unfold parseRest
+  -- the start state satisfies the invariant of the specification's run
+  have hinv0 : XInv (docStart opts) := by
+    intro x hx _
+    refine H5V.Lemmas.ModesInv.Good.plain' (m := .initial) (by show imode (docStart opts).mode = _; rfl) (by decide) ?_ ?_
+    · intro n t hm; cases hm
+    · intro m hm; cases hm
   refine pc_seq (pc_processTokens hmode hchar hfor hforc hdt toks [] (docStart opts)
-    (H5V.Props.C04TB.C04_tb_inv_new opts) (minv_docStart opts) hresp) ?_
+    (H5V.Props.C04TB.C04_tb_inv_new opts) (minv_docStart opts) hinv0 hresp) ?_
   rintro res s1 c1 he1 ⟨_, hm1, hc1, hext1, ids, f⟩
   refine pc_seq (PC.of_tot (tot_finishTB s1)) ?_
   rintro _ s2 c2 he2 ⟨hs2, hc2⟩
   refine pc_pure ⟨ids, fun rest => ?_⟩
-  obtain ⟨x', os, _, hsup, ⟨ops, e1, k1⟩, ho, hfb, F, hF⟩ :=
+  obtain ⟨x', os, _, hsup, ⟨ops, e1, k1⟩, ho, hfb, ⟨F, hF⟩, hstd⟩ :=
     f { supply := ids ++ rest } rest (auxOk_docStart opts _) rfl
+  obtain ⟨_, F', hF'⟩ := hstd (hinv0 _ (auxOk_docStart opts _))
   have hq2 : s2.quirksMode = s1.quirksMode := by rw [hs2]
   have hm2 : s2.mode = s1.mode := by rw [hs2]
-  refine ⟨absF s1 x', ⟨F, fun fuel hfu => ?_⟩, hsup, ?_, by rw [hq2]; rfl, by rw [hm2]; rfl, ?_⟩
-  · have := hF fuel hfu
+  refine ⟨absF s1 x', ⟨max F F', fun fuel hfu => ⟨?_, ?_⟩⟩, hsup, ?_, by rw [hq2]; rfl, by rw [hm2]; rfl, ?_⟩
+  · have := hF fuel (by omega)
+    rw [absF_docStart opts hq] at this
+    exact this
+  · have := hF' fuel (by omega)
     rw [absF_docStart opts hq] at this
     exact this
   · intro tc htc
@@ -176,7 +196,7 @@ theorem DocAgrees.std {opts : Opts} {toks : List (TokToken × Nat)} {res : List 
   obtain ⟨ids, f⟩ := h
   refine ⟨ids, fun rest => ?_⟩
   obtain ⟨σ, ⟨F, hF⟩, h2⟩ := f rest
-  exact ⟨σ, ⟨F, fun fuel hfu => parseDocument_of_parseDocumentDev (hF fuel hfu)⟩, h2⟩
+  exact ⟨σ, ⟨F, fun fuel hfu => Or.inl (hF fuel hfu).2⟩, h2⟩
 
 /-- whenever the unmodified specification's run succeeds (with enough fuel), it is the run the model agrees with -/
 theorem DocAgrees.unique {opts : Opts} {toks : List (TokToken × Nat)} {res : List SinkResult} {s' : State} {calls : List Call}
@@ -186,9 +206,9 @@ theorem DocAgrees.unique {opts : Opts} {toks : List (TokToken × Nat)} {res : Li
   obtain ⟨ids, f⟩ := h
   refine ⟨ids, fun rest => ?_⟩
   obtain ⟨σ, ⟨F, hF⟩, _⟩ := f rest
-  refine ⟨σ, F, fun fuel hfu => ⟨hF fuel hfu, fun r hr => ?_⟩⟩
+  refine ⟨σ, F, fun fuel hfu => ⟨(hF fuel hfu).1, fun r hr => ?_⟩⟩
   have := parseDocumentDev_of_parseDocument hr
-  rw [hF fuel hfu] at this
+  rw [(hF fuel hfu).1] at this
   exact (Except.ok.inj this).symm
 
 /-- the statement against the specification with the asserted-impossible case of "in cell" defined -/
@@ -218,6 +238,40 @@ theorem C02_model_eq_spec_modes (opts : Opts) (hq : opts.quirksMode = .noQuirks)
   obtain ⟨calls, h1, h2⟩ := C02_model_eq_spec_modes_completed opts hq toks hresp res s' hr
   exact ⟨calls, h1, h2.std⟩
 
+/-- the STRICT form of what the headline says: the UNMODIFIED specification's run succeeds (for every sufficient
+amount of reprocessing fuel) with a state `σ` that agrees with the model's run -/
+def DocAgreesStrict (opts : Opts) (toks : List (TokToken × Nat)) (res : List SinkResult) (s' : State) (calls : List Call) : Prop :=
+  ∃ ids, ∀ rest, ∃ σ : SState,
+    (∃ F, ∀ fuel, F ≤ fuel → Spec.TreeModes.parseDocument (docCfg opts) fuel (ids ++ rest) (specToks toks) = .ok σ) ∧
+    σ.p.supply = rest ∧
+    (∀ tc, TcOk s'.dom tc → flatCalls (edits2 calls) = flatCalls (σ.fullLog.map (opCall tc))) ∧
+    σ.quirks = dmode s'.quirksMode ∧ σ.mode = imode s'.mode ∧
+    res.reverse.filterMap resAnswer = σ.outs.filterMap outAnswer
+
+theorem DocAgrees.strict {opts : Opts} {toks : List (TokToken × Nat)} {res : List SinkResult} {s' : State} {calls : List Call}
+    (h : DocAgrees opts toks res s' calls) : DocAgreesStrict opts toks res s' calls := by
+  obtain ⟨ids, f⟩ := h
+  refine ⟨ids, fun rest => ?_⟩
+  obtain ⟨σ, ⟨F, hF⟩, h2⟩ := f rest
+  exact ⟨σ, ⟨F, fun fuel hfu => (hF fuel hfu).2⟩, h2⟩
+
+/-- **C02, insertion modes (documents), strict form**: for every option set with the default document mode and every
+token list that keeps the protocol of the tokenizer (`Respects2`: well-formed tags without duplicate attribute
+names, non-empty character tokens without U+0000, in "text" mode only characters / end tags / EOF, nothing after
+EOF, `drop_doctype` off, a DOCTYPE in "initial" finds the document in no-quirks mode), every successful run of the
+model's `parse_document` IS the run of the UNMODIFIED specification `Spec.TreeModes.parseDocument`: it succeeds, with
+the same DOM operations in the same order, the same document mode, the same final insertion mode, the same answers
+to the tokenizer.  No completion of the specification, no proviso about the Assert of "in cell" (it is proved:
+the invariant `H5V.Lemmas.ModesInv.Good` of the specification's run, `HtmlTBModesInv*.lean`), no hypothesis about
+the adjusted current node. -/
+theorem C02_model_eq_spec_modes_strict (opts : Opts) (hq : opts.quirksMode = .noQuirks)
+    (toks : List (TokToken × Nat)) (hresp : Respects2 (docStart opts) toks) :
+    ∀ res s', (H5V.Props.C04TB.parseDocument toks).run (State.init opts) = .ok (res, s') →
+      ∃ calls, s'.traceRev = calls.reverse ++ [(.getDocument, .node 0)] ∧ DocAgreesStrict opts toks res s' calls := by
+  intro res s' hr
+  obtain ⟨calls, h1, h2⟩ := C02_model_eq_spec_modes_completed opts hq toks hresp res s' hr
+  exact ⟨calls, h1, h2.strict⟩
+
 /-- `FragAgrees` against the UNMODIFIED specification `Spec.TreeModes.parseFragment` (`fragmentState`, then the
 tokens) -/
 def FragAgreesStd (opts : Opts) (d : Dom) (ctx : Id) (form : Option Id) (toks : List (TokToken × Nat))
@@ -238,7 +292,7 @@ theorem fragAgrees_std {opts : Opts} {d : Dom} {ctx : Id} {form : Option Id} {to
   obtain ⟨ids, f⟩ := h
   refine ⟨ids, fun rest => ?_⟩
   obtain ⟨σ, ⟨F, hF⟩, h2⟩ := f rest
-  exact ⟨σ, ⟨F, fun fuel hfu => parseFragment_of_parseFragmentDev (hF fuel hfu)⟩, h2⟩
+  exact ⟨σ, ⟨F, fun fuel hfu => Or.inl (hF fuel hfu).2⟩, h2⟩
 
 /-- the fragment statement against the specification with the asserted-impossible case of "in cell" defined -/
 theorem C02_model_eq_spec_modes_fragment_completed (opts : Opts) (d : Dom) (ctx : Id) (form : Option Id)
@@ -271,6 +325,55 @@ theorem C02_model_eq_spec_modes_fragment (opts : Opts) (d : Dom) (ctx : Id) (for
   obtain ⟨calls, h1, h2⟩ := C02_model_eq_spec_modes_fragment_completed opts d ctx form hctx hform toks hresp res s' hr
   exact ⟨calls, h1, fragAgrees_std h2⟩
 
+/-- the STRICT form for fragments: the UNMODIFIED `Spec.TreeModes.parseFragment` succeeds with a state that agrees -/
+def FragAgreesStrict (opts : Opts) (d : Dom) (ctx : Id) (form : Option Id) (toks : List (TokToken × Nat))
+    (res : List SinkResult) (s' : State) (calls : List Call) : Prop :=
+  ∃ ids, ∀ rest, ∃ σ : SState,
+    (∃ F, ∀ fuel, F ≤ fuel →
+      Spec.TreeModes.parseFragment (fragCfg opts d ctx) fuel (dmode opts.quirksMode) form (ids ++ rest) (specToks toks) = .ok σ) ∧
+    σ.p.supply = rest ∧
+    (∀ tc, TcOk s'.dom tc → flatCalls (edits2 calls) = flatCalls (σ.fullLog.map (opCall tc))) ∧
+    σ.quirks = dmode s'.quirksMode ∧ σ.mode = imode s'.mode ∧
+    res.reverse.filterMap resAnswer = σ.outs.filterMap outAnswer
+
+theorem fragAgrees_strict {opts : Opts} {d : Dom} {ctx : Id} {form : Option Id} {toks : List (TokToken × Nat)}
+    {res : List SinkResult} {s' : State} {calls : List Call}
+    (h : FragAgrees opts d ctx form toks res s' calls) : FragAgreesStrict opts d ctx form toks res s' calls := by
+  obtain ⟨ids, f⟩ := h
+  refine ⟨ids, fun rest => ?_⟩
+  obtain ⟨σ, ⟨F, hF⟩, h2⟩ := f rest
+  exact ⟨σ, ⟨F, fun fuel hfu => (hF fuel hfu).2⟩, h2⟩
+
+/-- **C02, insertion modes (fragments), strict form**: the same for the HTML fragment parsing algorithm, for any sink
+`d`, ANY context element `ctx` of `d`, a form element pointer that is `none` or an HTML `form` element of `d`: the
+model's run is the run of the UNMODIFIED `Spec.TreeModes.parseFragment` (`fragmentState`, then the tokens) -/
+theorem C02_model_eq_spec_modes_fragment_strict (opts : Opts) (d : Dom) (ctx : Id) (form : Option Id)
+    (hctx : d.isElement ctx = true)
+    (hform : ∀ f, form = some f → d.isElement f = true ∧ nameOf d f = ⟨nsHtml, "form".toList⟩)
+    (toks : List (TokToken × Nat))
+    (hresp : ∀ s1, (newForFragment ctx form).run (H5V.Props.C04TB.fragInit opts d) = .ok ((), s1) → Respects2 s1 toks) :
+    ∀ res s', (H5V.Props.C04TB.parseFragment ctx form toks).run (H5V.Props.C04TB.fragInit opts d) = .ok (res, s') →
+      ∃ calls, s'.traceRev = calls.reverse ++ (H5V.Props.C04TB.fragInit opts d).traceRev ∧
+        FragAgreesStrict opts d ctx form toks res s' calls := by
+  intro res s' hr
+  obtain ⟨calls, h1, h2⟩ := C02_model_eq_spec_modes_fragment_completed opts d ctx form hctx hform toks hresp res s' hr
+  exact ⟨calls, h1, fragAgrees_strict h2⟩
+
+/-- **the standard's Assert of "in cell" holds** (documents; the model's run is only used to supply the node
+identities): in every run of `parse_document` of the model over protocol-abiding tokens, the specification with the
+asserted-impossible case defined and the unmodified specification have the same run -/
+theorem C02_cell_assert_never_fails (opts : Opts) (hq : opts.quirksMode = .noQuirks)
+    (toks : List (TokToken × Nat)) (hresp : Respects2 (docStart opts) toks) :
+    ∀ res s', (H5V.Props.C04TB.parseDocument toks).run (State.init opts) = .ok (res, s') →
+      ∃ ids, ∀ rest, ∃ F, ∀ fuel, F ≤ fuel →
+        Spec.TreeModes.parseDocument (docCfg opts) fuel (ids ++ rest) (specToks toks)
+          = parseDocumentDev (docCfg opts) fuel (ids ++ rest) (specToks toks) := by
+  intro res s' hr
+  obtain ⟨calls, _, ids, f⟩ := C02_model_eq_spec_modes_completed opts hq toks hresp res s' hr
+  refine ⟨ids, fun rest => ?_⟩
+  obtain ⟨σ, ⟨F, hF⟩, _⟩ := f rest
+  exact ⟨F, fun fuel hfu => by rw [(hF fuel hfu).1, (hF fuel hfu).2]⟩
+
 /-! ## a decidable form of the protocol hypothesis `Respects2` -/
 
 def tagWfB (t : Tag) : Bool :=
@@ -286,18 +389,6 @@ theorem tagWf_of_B {t : Tag} (h : tagWfB t = true) : TagWf t := by
   have := h2 c hc
   simp [hcc.1, hcc.2] at this
 
-/-- decidable form of `AcnHtml` -/
-def acnHtmlB (s : State) : Bool :=
-  match H5V.Lemmas.TBSafe.adjNode s with
-  | some c => decide ((nameOf s.dom c).ns = nsHtml)
-  | none => true
-
-theorem acnHtml_of_B {s : State} (h : acnHtmlB s = true) : AcnHtml s := by
-  intro c hc
-  unfold acnHtmlB at h
-  rw [hc] at h
-  simpa using h
-
 def tokTokOkB (s : State) : TokToken → Bool
   | .tag t => tagWfB t && (s.mode != .text || t.kind == .endTag)
   | .chars x => !x.isEmpty && !x.contains '\x00'
@@ -305,8 +396,7 @@ def tokTokOkB (s : State) : TokToken → Bool
   | .parseError _ => true
   | .comment _ => s.mode != .text
   | .nullChar => s.mode != .text
-  | .doctype _ => s.mode != .text && !s.opts.dropDoctype && (s.mode != .initial || s.quirksMode == .noQuirks) &&
-      (s.mode != .inTableText || acnHtmlB s)
+  | .doctype _ => s.mode != .text && !s.opts.dropDoctype && (s.mode != .initial || s.quirksMode == .noQuirks)
 
 theorem tokTokOk_of_B {s : State} {t : TokToken} (h : tokTokOkB s t = true) : TokTokOk s t := by
   cases t with
@@ -358,15 +448,12 @@ theorem tokTokOk_of_B {s : State} {t : TokToken} (h : tokTokOkB s t = true) : To
     constructor
     · intro t' e; cases e
     · intro y e; cases e
-    · intro hm; exact absurd hm h.1.1.1
+    · intro hm; exact absurd hm h.1.1
     · intro d' _
-      refine ⟨h.1.1.2, fun hi => ?_, fun hi => ?_⟩
-      · rcases h.1.2 with h2 | h2
-        · exact absurd hi h2
-        · exact h2
-      · rcases h.2 with h2 | h2
-        · exact absurd hi h2
-        · exact acnHtml_of_B h2
+      refine ⟨h.1.2, fun hi => ?_⟩
+      rcases h.2 with h2 | h2
+      · exact absurd hi h2
+      · exact h2
 
 def respects2B : State → List (TokToken × Nat) → Bool
   | _, [] => true
@@ -414,6 +501,11 @@ example : ((H5V.Props.C04TB.parseDocument exToks).run (State.init {})).toBool = 
 example : ∀ res s', (H5V.Props.C04TB.parseDocument exToks).run (State.init {}) = .ok (res, s') →
     ∃ calls, s'.traceRev = calls.reverse ++ [(.getDocument, .node 0)] ∧ DocAgreesStd {} exToks res s' calls :=
   C02_model_eq_spec_modes {} rfl exToks exToks_respects
+
+/-- … and the strict one: the run of the UNMODIFIED specification -/
+example : ∀ res s', (H5V.Props.C04TB.parseDocument exToks).run (State.init {}) = .ok (res, s') →
+    ∃ calls, s'.traceRev = calls.reverse ++ [(.getDocument, .node 0)] ∧ DocAgreesStrict {} exToks res s' calls :=
+  C02_model_eq_spec_modes_strict {} rfl exToks exToks_respects
 
 end Ex
 
@@ -515,6 +607,24 @@ example : ∀ res s', (H5V.Props.C04TB.parseFragment 1 none mD).run (H5V.Props.C
   C02_model_eq_spec_modes_fragment {} selDom 1 none (by decide +kernel) (fun _ h => by cases h) mD
     (respects2_frag_of_B (by decide +kernel))
 
+/-- the strict headlines on the four inputs -/
+example : ∀ res s', (H5V.Props.C04TB.parseDocument mA).run (State.init {}) = .ok (res, s') →
+    ∃ calls, s'.traceRev = calls.reverse ++ [(.getDocument, .node 0)] ∧ DocAgreesStrict {} mA res s' calls :=
+  C02_model_eq_spec_modes_strict {} rfl mA mA_respects
+example : ∀ res s', (H5V.Props.C04TB.parseDocument mB).run (State.init {}) = .ok (res, s') →
+    ∃ calls, s'.traceRev = calls.reverse ++ [(.getDocument, .node 0)] ∧ DocAgreesStrict {} mB res s' calls :=
+  C02_model_eq_spec_modes_strict {} rfl mB mB_respects
+example : ∀ res s', (H5V.Props.C04TB.parseFragment 1 none mC).run (H5V.Props.C04TB.fragInit {} svgDom) = .ok (res, s') →
+    ∃ calls, s'.traceRev = calls.reverse ++ (H5V.Props.C04TB.fragInit {} svgDom).traceRev ∧
+      FragAgreesStrict {} svgDom 1 none mC res s' calls :=
+  C02_model_eq_spec_modes_fragment_strict {} svgDom 1 none (by decide +kernel) (fun _ h => by cases h) mC
+    (respects2_frag_of_B (by decide +kernel))
+example : ∀ res s', (H5V.Props.C04TB.parseFragment 1 none mD).run (H5V.Props.C04TB.fragInit {} selDom) = .ok (res, s') →
+    ∃ calls, s'.traceRev = calls.reverse ++ (H5V.Props.C04TB.fragInit {} selDom).traceRev ∧
+      FragAgreesStrict {} selDom 1 none mD res s' calls :=
+  C02_model_eq_spec_modes_fragment_strict {} selDom 1 none (by decide +kernel) (fun _ h => by cases h) mD
+    (respects2_frag_of_B (by decide +kernel))
+
 /-- the configuration the fragment headline uses for `svgDom` / `selDom` is the one of `fragCtx` above (up to the
 node id of the context element) -/
 example : (fragCfg {} svgDom 1).context = some ⟨1, ⟨Spec.TreeAlgo.nsSvg, "svg".toList⟩⟩ ∧
@@ -529,6 +639,9 @@ end H5V.Props.C02
 #print axioms H5V.Props.C02.C02_model_eq_spec_modes_completed
 #print axioms H5V.Props.C02.C02_model_eq_spec_modes_fragment_completed
 #print axioms H5V.Props.C02.DocAgrees.unique
+#print axioms H5V.Props.C02.C02_model_eq_spec_modes_strict
+#print axioms H5V.Props.C02.C02_model_eq_spec_modes_fragment_strict
+#print axioms H5V.Props.C02.C02_cell_assert_never_fails
 #print axioms H5V.Props.C02.C02_all_modes
 #print axioms H5V.Props.C02.C02_all_modes_chars
 #print axioms H5V.Props.C02.C02_foreign
